@@ -238,7 +238,7 @@ def resolve_aliases(raw):
         for _, c in n.get('m', []): collect(c)
     def subst(n):
         if 'alias' in n:
-            return subst(anchors[n['alias']])
+            return subst(anchors[n['alias']]) if n['alias'] in anchors else {'s': {'l': None}}      # (shrunk: the anchor is gone)
         m = {k: v for k, v in n.items() if k != 'anchor'}
         if 'q' in m: m['q'] = [subst(c) for c in m['q']]
         if 'm' in m: m['m'] = [[k, subst(c)] for k, c in m['m']]
